@@ -877,8 +877,15 @@ def execute_inner(tracks, op: dict) -> Outcome:
         npk_dt = np.int64
     elif npk:
         npk_dt = np.dtype(npk).type
-    I = (lambda x: npk_dt(x) if x >= 0 or npk_dt(0).dtype.kind == "i" else x) if npk \
-        else (lambda x: x)  # noqa: E741
+    def I(x):  # noqa: E741, N802
+        if not npk:
+            return x
+        if x < 0 and npk_dt(0).dtype.kind != "i":
+            return x
+        try:
+            return npk_dt(x)
+        except OverflowError:  # the id does not fit this dtype: a caller would hold an int64
+            return np.int64(x)
     try:
         with warnings.catch_warnings():
             warnings.simplefilter("ignore")
